@@ -1171,6 +1171,255 @@ def _callee_candidates(p, f: Func, fexpr) -> List[str]:
 # R5 check-escaped loop
 # ---------------------------------------------------------------------------
 
+# -- look-alike: a character-class test made on a slice ----------------------
+#
+# `x[a:b] in '0123...'` looks like "the character at a is a hex digit", but an
+# empty slice is `in` every string: where the slice can be empty (a % at the
+# very end of the input) the test passes without any digit being there.  It is
+# a test of the character only where the slice is provably non-empty, i.e. a
+# length check on the same path establishes len(x) > a.
+
+def _lin(e) -> Optional[Tuple[Optional[str], int]]:
+    """(v, c) when e == v + c for a local name v (or v None: the constant c)."""
+    if e is None:
+        return (None, 0)
+    if isinstance(e, ast.Constant) and type(e.value) is int:
+        return (None, e.value)
+    if isinstance(e, ast.Name):
+        return (e.id, 0)
+    if isinstance(e, ast.UnaryOp) and isinstance(e.op, ast.USub):
+        r = _lin(e.operand)
+        return (None, -r[1]) if r is not None and r[0] is None else None
+    if isinstance(e, ast.BinOp) and isinstance(e.op, (ast.Add, ast.Sub)):
+        l, r = _lin(e.left), _lin(e.right)
+        if l is None or r is None:
+            return None
+        if isinstance(e.op, ast.Sub):
+            return (l[0], l[1] - r[1]) if r[0] is None else None
+        if l[0] is not None and r[0] is not None:
+            return None
+        return (l[0] or r[0], l[1] + r[1])
+    return None
+
+
+def _mentions_len(e) -> bool:
+    return any(isinstance(x, ast.Call) and isinstance(x.func, ast.Name) and x.func.id == 'len' for x in ast.walk(e))
+
+
+def _order_facts(e, target) -> Optional[List[Tuple[ast.AST, bool]]]:
+    """What is known to have been evaluated, and with which outcome, when
+    `target` (a sub-expression of e) is evaluated: the earlier operands of the
+    enclosing and/or chains and the tests of enclosing conditional
+    expressions.  None when target is not inside e."""
+    if e is target:
+        return []
+    if isinstance(e, ast.BoolOp):
+        for i, v in enumerate(e.values):
+            sub = _order_facts(v, target)
+            if sub is not None:
+                return [(u, isinstance(e.op, ast.And)) for u in e.values[:i]] + sub
+        return None
+    if isinstance(e, ast.IfExp):
+        sub = _order_facts(e.test, target)
+        if sub is not None:
+            return sub
+        for branch, truth in ((e.body, True), (e.orelse, False)):
+            sub = _order_facts(branch, target)
+            if sub is not None:
+                return [(e.test, truth)] + sub
+        return None
+    if isinstance(e, (ast.Lambda, ast.ListComp, ast.SetComp, ast.DictComp, ast.GeneratorExp)):
+        return None if not any(x is target for x in ast.walk(e)) else []
+    for ch in ast.iter_child_nodes(e):
+        sub = _order_facts(ch, target)
+        if sub is not None:
+            return sub
+    return None
+
+
+_NEG = {ast.Eq: ast.NotEq, ast.NotEq: ast.Eq, ast.Lt: ast.GtE, ast.GtE: ast.Lt, ast.Gt: ast.LtE, ast.LtE: ast.Gt}
+_FLIP = {ast.Eq: ast.Eq, ast.NotEq: ast.NotEq, ast.Lt: ast.Gt, ast.Gt: ast.Lt, ast.LtE: ast.GtE, ast.GtE: ast.LtE}
+
+
+def _length_bounds(f: Func, expr, truth: bool) -> Tuple[List[Tuple[str, Optional[str], int, str]], bool]:
+    """Lower bounds `len(X) >= v + k` that follow from `expr` having the
+    outcome `truth`: ([(dump of X, v, k, 'len' | 'nonempty')], opaque) - opaque
+    is set when some part that mentions a length could not be read."""
+    def expand(e):
+        if isinstance(e, ast.Name):
+            binds = _assignments(f.node, e.id)
+            if len(binds) == 1 and binds[0][1] is not None and _mentions_len(binds[0][1]):
+                return binds[0][1]
+        return e
+
+    def len_arg(e):
+        e = expand(e)
+        if isinstance(e, ast.Call) and isinstance(e.func, ast.Name) and e.func.id == 'len' and len(e.args) == 1 and not e.keywords:
+            return e.args[0]
+        return None
+
+    out: List[Tuple[str, Optional[str], int, str]] = []
+    opaque = False
+
+    def pair(l, op, r, truth):
+        nonlocal opaque
+        if not (_mentions_len(expand(l)) or _mentions_len(expand(r))):
+            return
+        t = type(op)
+        if t not in _NEG:
+            opaque = True
+            return
+        if not truth:
+            t = _NEG[t]
+        X, other = len_arg(l), r
+        if X is None:
+            X, other, t = len_arg(r), l, _FLIP[t]
+        b = _lin(other)
+        if X is None or b is None or _mentions_len(other):
+            opaque = True
+            return
+        if t is ast.Gt:
+            out.append((ast.dump(X), b[0], b[1] + 1, 'len'))
+        elif t in (ast.GtE, ast.Eq):
+            out.append((ast.dump(X), b[0], b[1], 'len'))
+        # <, <=, != give no lower bound
+
+    def walk(e, truth):
+        nonlocal opaque
+        if isinstance(e, ast.UnaryOp) and isinstance(e.op, ast.Not):
+            walk(e.operand, not truth)
+        elif isinstance(e, ast.BoolOp) and (isinstance(e.op, ast.And) == truth):
+            for v in e.values:
+                walk(v, truth)
+        elif isinstance(e, ast.Compare):
+            if len(e.ops) == 1 and isinstance(e.ops[0], (ast.Eq, ast.NotEq)) and \
+                    any(isinstance(x, ast.Constant) and x.value == '' for x in (e.left, e.comparators[0])):
+                # X != ''  (or: not X == '')
+                other = e.comparators[0] if isinstance(e.left, ast.Constant) else e.left
+                if isinstance(e.ops[0], ast.NotEq) == truth:
+                    out.append((ast.dump(other), None, 1, 'nonempty'))
+            elif len(e.ops) == 1:
+                pair(e.left, e.ops[0], e.comparators[0], truth)
+            elif truth:
+                operands = [e.left] + list(e.comparators)
+                for i, op in enumerate(e.ops):
+                    pair(operands[i], op, operands[i + 1], True)
+            elif _mentions_len(e):
+                opaque = True
+        elif isinstance(e, (ast.Name, ast.Subscript)) and not _mentions_len(expand(e)):
+            if truth:
+                out.append((ast.dump(e), None, 1, 'nonempty'))   # a non-empty string is what is truthy
+        elif _mentions_len(e) or any(isinstance(x, ast.Name) and _mentions_len(expand(x)) for x in ast.walk(e)):
+            opaque = True
+
+    walk(expr, truth)
+    return out, opaque
+
+
+def _binds(n, names: Set[str]) -> bool:
+    if n.kind == 'iter' and any(isinstance(x, ast.Name) and x.id in names for x in ast.walk(n.stmt.target)):
+        return True
+    return any(isinstance(x, ast.Name) and x.id in names and isinstance(x.ctx, (ast.Store, ast.Del)) for x in n.walk())
+
+
+def _slice_class_tests(run, fa, enc: Func, cfg, is_check) -> bool:
+    """Frozen look-alike: a membership test with a slice on the left and a
+    string (a character class) on the right, inside the escape check.
+    Reports it unless the slice is provably non-empty; True when it fired."""
+    fired = False
+
+    def expand(e, depth=3):
+        while depth > 0 and isinstance(e, ast.Name):
+            binds = _assignments(enc.node, e.id)
+            if len(binds) != 1 or binds[0][1] is None:
+                break
+            e = binds[0][1]
+            depth -= 1
+        return e
+
+    for n in cfg.live_nodes():
+        if n.copy or n.ast is None:
+            continue
+        root = n.ast
+        for cmp_ in [x for x in n.walk() if isinstance(x, ast.Compare)]:
+            if not isinstance(cmp_.ops[0], (ast.In, ast.NotIn)):
+                continue
+            left = expand(cmp_.left)
+            if not (isinstance(left, ast.Subscript) and isinstance(left.slice, ast.Slice)):
+                continue
+            if _guard_verdict(cfg, n.id, is_check, True)[0] != 'proved':
+                continue   # not part of the already-escaped heuristic
+            hv = fa.ev.expr(cmp_.comparators[0], dict(fa.env))
+            if isinstance(hv, (set, frozenset, tuple, list, dict)):
+                if '' not in hv:
+                    continue   # element-wise membership: an empty slice is not a member
+            elif not isinstance(hv, str):
+                raise UnknownIdiom('%s: right operand of %s' % (enc.qual, short(cmp_, 60)))
+            if len(cmp_.ops) != 1:
+                raise UnknownIdiom('%s: chained comparison %s' % (enc.qual, short(cmp_, 60)))
+            sl = left.slice
+            lo, hi = _lin(sl.lower), (_lin(sl.upper) if sl.upper is not None else None)
+            if sl.step is not None or lo is None or (sl.upper is not None and hi is None):
+                raise UnknownIdiom('%s: bounds of the slice in %s' % (enc.qual, short(cmp_, 60)))
+            if hi is not None and not (hi[0] == lo[0] and hi[1] > lo[1]) and not (lo[0] is None and lo[1] < 0 and hi[0] is None and hi[1] < 0 and hi[1] > lo[1]):
+                raise UnknownIdiom('%s: slice %s is not of the form x[a:a+k]' % (enc.qual, short(left, 60)))
+            # what has to be established: len(X) >= v + k for one of these
+            need: List[Tuple[str, Optional[str], int, Set[str]]] = []
+            for whole in {ast.dump(cmp_.left), ast.dump(left)}:
+                need.append((whole, None, 1, {x.id for x in ast.walk(cmp_.left) if isinstance(x, ast.Name)}))
+            base_names = {x.id for x in ast.walk(left.value) if isinstance(x, ast.Name)}
+            if lo[0] is None and lo[1] < 0:
+                need.append((ast.dump(left.value), None, 1 if hi is None else -lo[1], base_names))
+            else:
+                need.append((ast.dump(left.value), lo[0], lo[1] + 1, base_names | ({lo[0]} if lo[0] else set())))
+            # facts: evaluation order inside the statement, then dominating branch outcomes
+            facts: List[Tuple[ast.AST, bool, Optional[Tuple[int, int]]]] = [(e, t, None) for (e, t) in (_order_facts(root, cmp_) or [])]
+            for t in cfg.live_nodes():
+                if t.kind != 'test' or t.id == n.id:
+                    continue
+                for (y, l) in cfg.succ[t.id]:
+                    if l in ('T', 'F') and flow.dominated_by_edge(cfg, n.id, (t.id, y, l)):
+                        facts.append((t.ast, l == 'T', (t.id, y)))
+            proved = opaque = False
+            for (e, truth, edge) in facts:
+                bounds, op = _length_bounds(enc, e, truth)
+                opaque = opaque or op
+                for (X, v, k, kind) in bounds:
+                    hit = [nd for nd in need if nd[0] == X and nd[1] == v and k >= nd[2]]
+                    if not hit:
+                        if kind == 'len' and not any(nd[0] == X for nd in need):
+                            opaque = True   # a length fact about something else (possibly related): not read
+                        continue
+                    if edge is not None:
+                        # the names involved keep their value from the branch to the test
+                        window = flow.reachable(cfg, [edge[1]], avoid_nodes=[edge[0]]) & flow.co_reachable(cfg, [n.id], avoid_nodes=[edge[0]])
+                        names = set().union(*[nd[3] for nd in hit])
+                        if any(_binds(cfg.node(w), names) for w in window if w != n.id):
+                            opaque = True
+                            continue
+                    proved = True
+            what = ('a membership test of a slice in a character class is used as "this character is a hex digit" only where the '
+                    'slice is provably non-empty (an empty slice is `in` every string)')
+            if proved:
+                run.ok(what, enc.loc(cmp_), cmp_)
+                continue
+            if opaque:
+                raise UnknownIdiom('%s: cannot decide whether the slice in %s may be empty (a length test on the path is not understood)'
+                                   % (enc.qual, short(cmp_, 60)))
+            if lo[0] is not None:
+                origins = _assignments(enc.node, lo[0])
+                if any(isinstance(st, (ast.For, ast.AsyncFor)) for (st, _v) in origins) or not origins:
+                    raise UnknownIdiom('%s: %s in %s is a loop variable/parameter; its range is not modelled' % (enc.qual, lo[0], short(cmp_, 60)))
+            fired = True
+            run.fail(what + ': here nothing on the path bounds the length, so a % (or % and one digit) at the end of the input '
+                     'passes as a well-formed escape', enc, cmp_, where=enc.loc(cmp_),
+                     witness=['%s is \'\' when len(%s) < %s; \'\' in %r is True' % (
+                         short(left, 60), short(left.value, 40), ('%s + %d' % (lo[0], lo[1] + 1)) if lo[0] else str(max(lo[1] + 1, 1)),
+                         hv if isinstance(hv, str) else sorted(hv)[:4])],
+                     runtime_witness="encode_check_escaped('/sale/discount-100%') and ('%2') are returned unchanged")
+    return fired
+
+
 def r5_check_escaped(run):
     p = run.project
     fs = _factories(run)
@@ -1193,6 +1442,11 @@ def r5_check_escaped(run):
                         and isinstance(base.func.value, ast.Name) and base.func.value.id == up and len(base.args) == 1 \
                         and isinstance(base.args[0], ast.Constant) and base.args[0].value == '%':
                     loops.append(n)
+    # frozen look-alike table, part 1 (decided before the loop shape is looked at, so that it is
+    # reported whatever the loop looks like: for over tokens, while/find scan, ...)
+    lookalike_fired = _slice_class_tests(run, fa, enc, cfg, is_check)
+    if lookalike_fired and len(loops) != 1:
+        return
     loop = single(loops, "loop over the '%'-separated tokens", enc.qual)
     tok = loop.target.id
     lo = p.fold(enc.module, loop.iter.slice.lower, None, None) if loop.iter.slice.lower is not None else None
@@ -1296,6 +1550,8 @@ def r5_check_escaped(run):
                      'underscore, single digit): a malformed escape passes as already escaped' % short(lookalike[0].func, 30),
                      enc, lookalike[0], where=enc.loc(lookalike[0]),
                      runtime_witness="encode_check_escaped('%+a') / ('/sale/100%-5') is returned unchanged")
+            return
+        if lookalike_fired:
             return
         raise UnknownIdiom('%s: the escape check does not test the characters after %% against a digit set' % enc.qual)
     cases = [('short', 0, 'no character follows the %'), ('short', 1, 'a single character follows the %'),
